@@ -1441,6 +1441,11 @@ Definition sOv : sschema := mkstruct (B "a.Ov") KStruct [mkfield 1 (B "inner") D
 Definition eOv : env := mkenv [sOvIn; sOv] [].
 Definition vOv : value :=
   VStruct [(1, VStruct [(2560, VStr (hx "0000fa" ++ repeat x00 253)%list)])].
+
+(* struct L { 2: list<i64> l } and a list header that claims 2^31-1 elements with nothing behind it *)
+Definition sL : sschema := mkstruct (B "a.L") KStruct [mkfield 2 (B "l") Default (TList TI64) None true].
+Definition eL : env := mkenv [sL] [].
+Definition hostile : bytes := hx "0f 00 02 0a 7f ff ff ff".
 End Witness.
 
 (* one corrupted type byte (08 -> ff) of a well-formed encoding: the model reaches Skip's index with a negative type *)
@@ -1471,4 +1476,17 @@ Theorem fast_read_corrupted_overrun_refuted :
 Proof.
   exists Witness.eOv, Witness.sOv, Witness.vOv. eexists. split; [vm_compute; reflexivity|].
   split; [vm_compute; reflexivity|]. vm_compute. reflexivity.
+Qed.
+
+(* a size taken from the input is accepted although nothing follows it: the generated code executes
+   make(T, 2147483647) (16 GiB for i64 elements) before the first element read fails as too short. The model
+   answers with the error; a process under a memory limit is aborted by the Go runtime instead (recorded
+   finding; the standard generated Read allocates in the same way) *)
+Theorem fast_read_hostile_size_refuted :
+  exists e s bs n r,
+    fast_read e s (new_struct e s) bs = FErr FShort /\
+    rd_list_begin (skipn 3 bs) = FOk (n, r) /\ n = 2147483647 /\ r = [].
+Proof.
+  exists Witness.eL, Witness.sL, Witness.hostile, 2147483647, []. split; [vm_compute; reflexivity|].
+  split; [vm_compute; reflexivity|]. split; reflexivity.
 Qed.
